@@ -1043,7 +1043,7 @@ func (g *Gen) originTx(mode int, bridge bool) *basetypes.OriginTx {
 }
 
 func (g *Gen) basketAllowsClass(v *Snapshot, bk *basketv1.Basket, b *basev1.Batch) bool {
-	cl := v.ClassByKey(b.ClassKey)
+	cl := v.ClassOfBatch(b)
 	if cl == nil {
 		return false
 	}
